@@ -15,6 +15,9 @@ OpsT1 == BitOps({"ISUMC", "ISUMP", "ISUMEN"}, {4}) \cup BitOps({"INSTP", "INSTN"
 \* T2: the groups that report to the status byte directly, the enable-less ones, the negative filter alone, OPERC through PWR
 OpsT2 == BitOps({"USRE"}, {0, 9}) \cup BitOps({"NGC", "NGN"}, {2}) \cup BitOps({"PWRE", "PWREN"}, {5}) \cup BitOps({"OPERE"}, {9})
          \cup BitOps({"SRE"}, {0, 1, 7}) \cup Zero({"NGE", "OPER", "PWRE", "USRE"}) \cup BitOps({"TOPC"}, {3}) \cup Zero({"TOPE"}) \cup Cls
+\* T2q: the same without the second bit of the enable-less group and with fewer service request enable bits (quick tier)
+OpsT2q == BitOps({"USRE"}, {9}) \cup BitOps({"NGC", "NGN"}, {2}) \cup BitOps({"PWRE", "PWREN"}, {5}) \cup BitOps({"OPERE"}, {9})
+          \cup BitOps({"SRE"}, {1, 7}) \cup Zero({"NGE", "OPER", "PWRE", "USRE"}) \cup BitOps({"TOPC"}, {3}) \cup Zero({"TOPE"}) \cup Cls
 \* T3: one group with both filters and two bits, all write kinds on the event register
 OpsT3 == BitOps({"INSTC", "INSTP", "INSTN", "INSTEN"}, {0, 9}) \cup SetOps({"INSTE"}, {0, 9}) \cup BitOps({"INSTE"}, {0, 9})
          \cup BitOps({"QUESE"}, {13}) \cup BitOps({"QUESC"}, {2}) \cup BitOps({"SRE"}, {3}) \cup Zero({"QUES"}) \cup Cls
